@@ -233,7 +233,7 @@ theorem seen_eq_of_exact (L : LenKind) (p : Bytes) (h : ∀ N, L = .fixed N → 
 /-- **Leaf payload round trip**: what the value decoder makes of the bytes it is shown behind the length
 prefix is exactly the value, with nothing left. -/
 theorem leaf_seen_roundtrip (L : LenKind) (E : Enc) (t : Ty) (v : Val) (p : Bytes)
-    (hc : LeafCanon L E t v p) (hfit : LenFits L p.length) : leafDec E t (seenPayload L p) = .ok (v, []) := by
+    (hc : LeafCanon L E t v p) : leafDec E t (seenPayload L p) = .ok (v, []) := by
   obtain ⟨henc, hcan⟩ := hc
   cases E <;> cases t <;> cases v <;> simp only [LeafCanon] at hcan <;> try (exact False.elim hcan)
   · -- dflt int
@@ -308,7 +308,7 @@ theorem leaf_field_roundtrip (t : Ty) (ht : IsLeaf t) (L : LenKind) (E : Enc) (t
     (hc : LeafCanon L E t v p) (hfit : LenFits L p.length) (x : Bytes) :
     ∃ bytes, Ty.ser t L E tag v = .ok bytes ∧ Ty.de t L E tag (bytes ++ x) = .ok (v, x) ∧
       ∃ pre, L.ser p.length = .ok pre ∧ bytes = tagPrefix tagEncDefault tag ++ (pre ++ p) := by
-  have hdec := leaf_seen_roundtrip L E t v p hc hfit
+  have hdec := leaf_seen_roundtrip L E t v p hc
   obtain ⟨bytes, hs, hd, hpre⟩ := deserTagged_serTagged L tag htag p x hfit (leafDec E t) v hdec
   cases t with
   | int w => exact ⟨bytes, by simp only [Ty.ser]; rw [hc.1]; exact hs, by simp only [Ty.de]; exact hd, hpre⟩
@@ -325,7 +325,7 @@ theorem bytes_field_roundtrip (L : LenKind) (tag : Option Nat) (htag : ∀ tg, t
     (b : Bytes) (hne : b ≠ []) (hc : LeafCanon L .custom .bytes (.raw b) b) (hfit : LenFits L b.length) (x : Bytes) :
     ∃ bytes, Ty.ser .bytes L .custom tag (.raw b) = .ok bytes ∧ Ty.de .bytes L .custom tag (bytes ++ x) = .ok (.raw b, x) ∧
       ∃ pre, L.ser b.length = .ok pre ∧ bytes = tagPrefix tagEncDefault tag ++ (pre ++ b) := by
-  have hdec := leaf_seen_roundtrip L .custom .bytes (.raw b) b hc hfit
+  have hdec := leaf_seen_roundtrip L .custom .bytes (.raw b) b hc
   obtain ⟨bytes, hs, hd, hpre⟩ := deserTagged_serTagged L tag htag b x hfit (leafDec .custom .bytes) (.raw b) hdec
   refine ⟨bytes, ?_, by simp only [Ty.de]; exact hd, hpre⟩
   have : b.isEmpty = false := by cases b <;> simp_all
